@@ -168,8 +168,8 @@ Section Mapping.
             match om with
             | RErr e => RErr e
             | ROk om =>
-                let t1 := match sm with Some (_ :: _ as m) => add_metadata t m Samp | _ => t end in
-                let t2 := match om with Some (_ :: _ as m) => add_metadata t1 m Obs | _ => t1 end in
+                let t1 := match sm with Some ((_ :: _) as m) => add_metadata t m Samp | _ => t end in
+                let t2 := match om with Some ((_ :: _) as m) => add_metadata t1 m Obs | _ => t1 end in
                 ROk t2
             end
         end
